@@ -61,8 +61,14 @@ func c13Strong(toks []hx.Tok, hy []bool) ([]hx.Tok, bool, bool) {
 		if hl {
 			if i > 0 {
 				p := toks[i-1]
-				if p.Kind != hx.TText || p.Raw {
-					return nil, false, false // faces another tag, or the inside of a raw/comment block
+				if p.Kind == hx.TText && p.Raw {
+					// the inner side of endraw / endcomment: the body is literal text that is emitted verbatim
+					// (raw, C05) or not at all (comment), so this hyphen changes nothing - in particular
+					// nothing outside the block
+					goto right
+				}
+				if p.Kind != hx.TText {
+					return nil, false, false // faces another tag
 				}
 				trimmed := strings.TrimRightFunc(out[i-1].Body, unicode.IsSpace)
 				if trimmed != out[i-1].Body {
@@ -71,10 +77,14 @@ func c13Strong(toks []hx.Tok, hy []bool) ([]hx.Tok, bool, bool) {
 				out[i-1].Body = trimmed
 			}
 		}
+	right:
 		if hr {
 			if i+1 < len(toks) {
 				n := toks[i+1]
-				if n.Kind != hx.TText || n.Raw {
+				if n.Kind == hx.TText && n.Raw {
+					continue // the inner side of raw / comment: no effect
+				}
+				if n.Kind != hx.TText {
 					return nil, false, false
 				}
 				trimmed := strings.TrimLeftFunc(out[i+1].Body, unicode.IsSpace)
